@@ -148,7 +148,7 @@ var props = map[string]*propDef{
 			{Name: "proto.VerifC06LowCardinalityRaw", Cfg: c06cfg6, Quick: map[string]int{"maxrows": 2, "inlen": 36}, Thorough: map[string]int{"maxrows": 2, "inlen": 38}},
 			{Name: "proto.VerifC06Messages", Cfg: c06cfg, Quick: map[string]int{"inlen": 6}, Thorough: map[string]int{"inlen": 9}},
 			{Name: "proto.VerifC06HostileTypeName", Cfg: c06cfg, Quick: map[string]int{"maxlen": 3}, Thorough: map[string]int{"maxlen": 5}},
-			{Name: "proto.VerifC06RawBlock", Cfg: c06cfg, Quick: map[string]int{"inlen": 7}, Thorough: map[string]int{"inlen": 9}},
+			{Name: "proto.VerifC06RawBlock", Cfg: c06cfg, Quick: map[string]int{"inlen": 8}, Thorough: map[string]int{"inlen": 10}},
 		},
 	},
 	"C16": {
